@@ -22,6 +22,9 @@
 (*           the stop: the mode and its devices stay loaded (attached to the same player) until Release; *)
 (*           a ball that ends meanwhile WAITS (ph = "ending": gm1 gone, gm2 still attached to cur, still *)
 (*           cur's turn) and goes on to the next ball / player / game over at Release                    *)
+(*   PVar    a variable_player entry of gm1 that names its target ('player: 1' / 'player: 2', add to score / *)
+(*           set bonus): writes into the named player's record whoever is up (the one exemption of Frame     *)
+(*           besides SetTV); its player_<var> event carries the named player's number and values            *)
 (*   nops/nadv/ngames/bops  budgets (bops: steps within the current ball or pause between turns)         *)
 (* machine modelled (drivers/c11.py write_machine): gm1 starts on ball_starting (c1 counter goal 3      *)
 (* disable_on_complete, a1 accrual of 2, q1 sequence of 2 reset+disable on complete, shots 1/2 in a     *)
@@ -146,6 +149,15 @@ AddPlayer == /\ "addplayer" \in Acts /\ ph = "ball" /\ nops < MaxOps /\ nops' = 
 Score == Op("score") /\ Step([op |-> "score"], SetMe([Me EXCEPT !.score = @ + 100]), bound, vol)
 SetVar(kind) == Op("var") /\ Step([op |-> "var", kind |-> kind],
                                  SetMe([Me EXCEPT !.bonus = IF kind = "set" THEN 5 ELSE @ + 1]), bound, vol)
+\* a variable_player entry of game mode gm1 with an explicit target 'player: n' (kind add: score + 7, set: bonus = 9): the
+\* write goes to player n whoever is up.  A player n who has not joined (yet): the statement does not say - the entry is
+\* dropped or (fb) applied to the player who is up
+PVarTarget(n, fb) == IF n <= np THEN n ELSE IF fb THEN cur ELSE 0
+PVarWrite(r, kind) == IF kind = "set" THEN [r EXCEPT !.bonus = 9] ELSE [r EXCEPT !.score = @ + 7]
+PVar(kind, n, fb) == /\ Op("pvar") /\ n \in 1..2 /\ (n <= np => ~fb)
+                     /\ LET t == PVarTarget(n, fb)
+                            a == [op |-> "pvar", kind |-> kind, n |-> n, fb |-> fb]
+                        IN Step(a, IF t = 0 THEN P ELSE [P EXCEPT ![t] = PVarWrite(@, kind)], bound, vol)
 AwardEB == Op("eb") /\ Me.eb < MaxEB /\ Step([op |-> "awardeb"], SetMe([Me EXCEPT !.eb = @ + 1]), bound, vol)
 LB(dev, kind, k) ==
     /\ OpE("lb") /\ (dev \in {"a1", "q1"} /\ kind = "hit" => k \in {0, 1}) /\ (~(dev \in {"a1", "q1"} /\ kind = "hit") => k = 0)
@@ -240,7 +252,7 @@ Next == \/ NewGame \/ TurnStart \/ AddPlayer \/ Score \/ AwardEB \/ Rotate \/ Mo
         \/ \E h \in BOOLEAN : ModeStop(h) \/ BallEnd(h)
         \/ \E q \in Players, var \in TVars, val \in TVals : SetTV(q, var, val)
         \/ \E m \in {"gm1", "gm2"} : ModeReq(m) \/ \E run \in BOOLEAN : LateReq(m, run)
-        \/ \E k \in {"set", "add"} : SetVar(k)
+        \/ \E k \in {"set", "add"} : SetVar(k) \/ \E n \in 1..2, fb \in BOOLEAN : PVar(k, n, fb)
         \/ \E d \in {"c1", "a1", "q1", "c2", "c3"}, k \in {0, 1} : LB(d, "hit", k)
         \/ \E kind \in {"enable", "disable"} : LB("c1", kind, 0)
         \/ \E i \in 1..3, kind \in {"hit", "enable", "disable"} : Shot(i, kind)
@@ -256,10 +268,12 @@ Attached == /\ \A m \in {"gm1", "gm2"} : bound[m] \in {0, cur}
             /\ (ph = "ending" => bound.gm2 = cur /\ vol.stp)
             /\ (vol.stp => bound.gm2 = cur)
 \* every step taken while cur = p leaves what the other players own untouched
-\* (except the one variable that an explicit write to that player's variable names)
+\* (except the one variable that an explicit write to that player's variable names: the Player API, or a
+\* variable_player entry with 'player: q')
 Frame == [][ \A q \in Players : (q # cur /\ P[q].ex /\ ph' # "idle") =>
                 \/ P'[q] = P[q]
-                \/ act'.op = "settv" /\ act'.q = q /\ P'[q] = [P[q] EXCEPT !.tv[act'.var] = act'.val] ]_vars
+                \/ act'.op = "settv" /\ act'.q = q /\ P'[q] = [P[q] EXCEPT !.tv[act'.var] = act'.val]
+                \/ act'.op = "pvar" /\ act'.n = q /\ P'[q] = PVarWrite(P[q], act'.kind) ]_vars
 \* when a ball starts for p the devices show exactly what p owned before (configured initial values on first use)
 BallStarts == (act'.op = "turnstart") \/ (act'.op \in {"ballend", "endgame"} /\ ph' = "ball")
               \/ (act'.op = "release" /\ ph = "ending" /\ ph' = "ball")
